@@ -252,7 +252,21 @@ func Param(i int) *Term { return &Term{Op: OParam, N: i} }
 
 func Field(base *Term, f *types.Var) *Term { return &Term{Op: OField, Obj: f, Args: []*Term{base}} }
 
+// AccessorPath, when set, gives for a verified accessor method (x.BaseMetrics() returns x's embedded base
+// object, nil for a nil x) the chain of embedded fields it stands for; a call of it on a non-nil object is that
+// field path.
+var AccessorPath func(fn *types.Func) ([]*types.Var, bool)
+
 func Call(fn *types.Func, args ...*Term) *Term {
+	if AccessorPath != nil && len(args) == 1 {
+		if path, ok := AccessorPath(fn); ok {
+			t := args[0] // (an empty path: the accessor of the level itself returns its receiver)
+			for _, f := range path {
+				t = Field(t, f)
+			}
+			return t
+		}
+	}
 	// math.Min / math.Max have one canonical form, shared with the builtin min / max on floats when one operand
 	// is a finite constant (see Builder.call)
 	if fn != nil && fn.Pkg() != nil && fn.Pkg().Path() == "math" && (fn.Name() == "Min" || fn.Name() == "Max") && len(args) == 2 {
@@ -776,6 +790,14 @@ func TermType(t *Term) types.Type {
 	if t.Op == OField {
 		if f, ok := t.Obj.(*types.Var); ok {
 			return f.Type()
+		}
+	}
+	if t.Op == OCall {
+		// the result of a function with one result (a constructor: NewBase())
+		if f, ok := t.Obj.(*types.Func); ok {
+			if sig, ok := f.Type().(*types.Signature); ok && sig.Results().Len() == 1 && sig.TypeParams().Len() == 0 && sig.RecvTypeParams().Len() == 0 {
+				return sig.Results().At(0).Type()
+			}
 		}
 	}
 	return nil
